@@ -1,5 +1,5 @@
 (* operations of the per-format layout models (NWChem electron section, ...) *)
-From BSE Require Import Model.Val Model.Basis Model.Nwchem Model.G94 Model.Turbomole Model.NwchemEcp.
+From BSE Require Import Model.Val Model.Basis Model.Nwchem Model.G94 Model.Turbomole Model.NwchemEcp Model.TurbomoleEcp Model.GamessUs Model.GamessUsEcp.
 Definition dec_zshells (v : val) : res (list (Z * list sshell)) :=
   do l <- as_list v;
   mapM (fun x => match x with
@@ -29,10 +29,21 @@ Definition enc_nw_el (e : nw_el) : val :=
   VDict [("electron_shells", VList (map enc_shell (e_shells e)));
          ("ecp_electrons", match e_nelec e with Some n => VInt n | None => VNone end);
          ("ecp_potentials", VList (map enc_epot (e_pots e)))].
+Definition enc_gus_el (e : gus_el) : val :=
+  VDict [("electron_shells", match g_shells e with Some shs => VList (map enc_shell shs) | None => VNone end);
+         ("ecp_electrons", match g_ecp e with Some g => VInt (fst g) | None => VNone end);
+         ("ecp_potentials", match g_ecp e with Some g => VList (map enc_epot (snd g)) | None => VNone end)].
 Definition ops_formats (op : string) (args : list val) : option (res val) :=
   match op, args with
   | "nw_write_electron", [VStr harm; els] => Some (do e <- dec_zshells els; do t <- nw_write_electron harm e; ok (VStr t))
   | "nw_read_electron", [ls] => Some (do l <- dec_strs ls; do r <- nw_read_electron l; ok (enc_zshells r))
+  | "tmecp_write", [VStr role; VStr name; els; ecps] =>
+      Some (do e <- dec_zshells els; do c <- dec_zecps ecps; do t <- tmecp_write role name e c; ok (VStr t))
+  | "tmecp_read", [ls] => Some (do l <- dec_strs ls; do r <- tmecp_read l; ok (VList (map (fun ze => VList [VInt (fst ze); enc_nw_el (snd ze)]) r)))
+  | "gus_write_electron", [els] => Some (do e <- dec_zshells els; do t <- gus_write_electron e; ok (VStr t))
+  | "gus_read_electron", [ls] => Some (do l <- dec_strs ls; do r <- gus_read_electron l; ok (enc_zshells r))
+  | "gus_write_all", [els; ecps] => Some (do e <- dec_zshells els; do c <- dec_zecps ecps; do t <- gus_write_all e c; ok (VStr t))
+  | "gus_read_all", [ls] => Some (do l <- dec_strs ls; do r <- gus_read_all l; ok (VList (map (fun ze => VList [VInt (fst ze); enc_gus_el (snd ze)]) r)))
   | "g94_write_electron", [els] => Some (do e <- dec_zshells els; do t <- g94_write_electron e; ok (VStr t))
   | "tm_write_electron", [VStr role; VStr name; els] => Some (do e <- dec_zshells els; do t <- tm_write_electron role name e; ok (VStr t))
   | "tm_read_electron", [ls] => Some (do l <- dec_strs ls; do r <- tm_read_electron l; ok (enc_zshells r))
